@@ -175,6 +175,7 @@ type event struct {
 	lo, hi  uint64
 	ok      bool
 	lastBlk uint64 // getlogs ok: the highest block the client has to hand on for this answer
+	release chan struct{} // getlogs failing by a dropped connection: the node waits for it before it drops
 }
 
 type trackLn struct {
@@ -251,9 +252,19 @@ func (a *ethAPI) GetLogs(arg map[string]interface{}) ([]*ethtypes.Log, error) {
 		n.armFetch = -1
 		mode := n.armMode
 		n.mu.Unlock()
-		n.events <- event{kind: "getlogs", lo: lo, hi: hi, ok: false} // before the drop: the client's re-subscribe comes later
 		if mode == "drop" {
-			n.ln.dropAll() // the answer never arrives: the client sees the connection die
+			// the answer never arrives: the client sees the connection die. The harness first makes sure (barrier
+			// request on the same connection) that the client has finished SENDING this request: go-ethereum's rpc
+			// client never completes a request whose connection dies between its write and its bookkeeping of it.
+			rel := make(chan struct{})
+			n.events <- event{kind: "getlogs", lo: lo, hi: hi, ok: false, release: rel}
+			select {
+			case <-rel:
+			case <-time.After(30 * time.Second):
+			}
+			n.ln.dropAll()
+		} else {
+			n.events <- event{kind: "getlogs", lo: lo, hi: hi, ok: false}
 		}
 		return nil, errors.New("injected eth_getLogs failure")
 	}
@@ -498,6 +509,7 @@ func (c *caseRun) waitRecovered(calls *[]string) (subs int) {
 				return
 			case "getlogs":
 				*calls = append(*calls, showCall(ev))
+				c.releaseDrop(ev)
 			}
 		case e := <-c.h.delivered:
 			c.take(e)
@@ -513,6 +525,19 @@ func (c *caseRun) waitRecovered(calls *[]string) (subs int) {
 			return
 		}
 	}
+}
+
+// barrier: a request on the client's current connection that the node answers at once; when it returns, every
+// request the client started before it has been completely sent. Then the node may drop the connection.
+func (c *caseRun) releaseDrop(ev event) {
+	if ev.release == nil {
+		return
+	}
+	ctx, cancel := context.WithTimeout(context.Background(), 20*time.Second)
+	var id hexutil.Big
+	_ = executionclient.VerifRPCClient(c.ec).CallContext(ctx, &id, "eth_chainId")
+	cancel()
+	close(ev.release)
 }
 
 func showCall(ev event) string {
@@ -763,6 +788,7 @@ loop:
 			}
 			grace = nil
 			calls = append(calls, showCall(ev))
+			c.releaseDrop(ev)
 			if !ev.ok {
 				failed = true
 				break loop
